@@ -127,3 +127,6 @@ def run(ctx):
     from . import c05 as _c05
 
     _c05.dispatch(ctx)  # (tools/wiring.py) Helmholtz boundary and potential factories hand a purely imaginary wavenumber to the same modified-Helmholtz kernel with the same omega
+    from . import c11 as _c11g
+
+    _c11g.geometry(ctx)  # (tools/wiring.py) normals, Jacobians, integration elements against their definitions for a general triangle of any size
